@@ -2,6 +2,8 @@ package seq
 
 import (
 	"bytes"
+	"encoding/base64"
+	"encoding/hex"
 	"fmt"
 	"strings"
 
@@ -9,6 +11,7 @@ import (
 	"berty.tech/go-ipfs-log/entry"
 	"berty.tech/go-ipfs-log/iface"
 	"github.com/ipfs/go-cid"
+	format "github.com/ipfs/go-ipld-format"
 	mbase "github.com/multiformats/go-multibase"
 
 	"verif/engine/run"
@@ -89,6 +92,24 @@ func c18One(p *run.Part, spec entrySpec, wk string) {
 			for _, t := range textForms(l) {
 				if bytes.Contains(raw, t) {
 					viol("-", "leak:text-cid", fmt.Sprintf("stored block contains a text form of link %s", l))
+				}
+			}
+		}
+		// ... nor a recognisable part of one, in the block itself or inside any text field once its base64 / hex
+		// armour is removed (a nonce, a tag or an "associated data" field derived from a link is stored in clear)
+		views := blockViews(raw, nd)
+	partial:
+		for _, l := range append(append([]cid.Cid{}, wantNext...), wantRefs...) {
+			forms := append([][]byte{l.Bytes(), []byte(l.Hash())}, textForms(l)...)
+			for _, f := range forms {
+				for i := 0; i+leakWindow <= len(f); i++ {
+					for vi, v := range views {
+						if bytes.Contains(v.b, f[i:i+leakWindow]) {
+							viol("-", "leak:part-of-identifier", fmt.Sprintf("%s of the stored block contains %d consecutive bytes (%q) of an identifier of link %s", v.name, leakWindow, f[i:i+leakWindow], l))
+							_ = vi
+							break partial
+						}
+					}
 				}
 			}
 		}
@@ -337,4 +358,39 @@ func init() {
 		}
 		c18One(p, c.Spec, c.Writer)
 	}})
+}
+
+// leakWindow: this many consecutive bytes of an identifier (of its binary form, its digest or one of its text
+// forms) found in a block are a leak; eight bytes of a digest do not turn up in ciphertext by chance (2^-64 per position).
+const leakWindow = 8
+
+type blockView struct {
+	name string
+	b    []byte
+}
+
+// blockViews: the raw block, and every text field of the decoded node with its base64 (all four alphabets) and hex
+// armour removed.
+func blockViews(raw []byte, nd format.Node) []blockView {
+	vs := []blockView{{"the raw bytes", raw}}
+	for _, pth := range nd.Tree("", -1) {
+		v, _, err := nd.Resolve(strings.Split(pth, "/"))
+		if err != nil {
+			continue
+		}
+		str, ok := v.(string)
+		if !ok || len(str) < leakWindow {
+			continue
+		}
+		for _, enc := range []*base64.Encoding{base64.StdEncoding, base64.RawStdEncoding, base64.URLEncoding, base64.RawURLEncoding} {
+			if b, err := enc.DecodeString(str); err == nil {
+				vs = append(vs, blockView{"field " + pth + " (base64-decoded)", b})
+				break
+			}
+		}
+		if b, err := hex.DecodeString(str); err == nil {
+			vs = append(vs, blockView{"field " + pth + " (hex-decoded)", b})
+		}
+	}
+	return vs
 }
